@@ -128,6 +128,7 @@ func c04(w *core.World, r *core.Report) {
 	// ---- ALL-CHILDREN
 	r.Rule("ALL-CHILDREN", 3, "Validate recurses into EVERY active child: every path through the body of the range over filterActiveChoiceCaseChilds() reaches the recursive validation (called directly or as a goroutine) before the next iteration; the closure validates the child it was given; the recursion does not depend on anything but the loop.")
 	{
+		helpers := map[*ssa.Function]bool{}
 		var next *ssa.Next
 		for _, b := range core.Blocks(validate) {
 			for _, in := range b.Instrs {
@@ -147,14 +148,19 @@ func c04(w *core.World, r *core.Report) {
 		} else {
 			var recs []ssa.Instruction
 			for _, c := range core.Calls(validate) {
+				if c.Parent() != validate {
+					continue // calls inside virtually inlined helpers are reached through the helper's own call
+				}
 				callee := c.Common().StaticCallee()
 				if callee == nil {
 					if tg, _ := w.FuncTargets(c.Common().Value); len(tg) == 1 {
 						callee = tg[0]
 					}
 				}
-				if callee != nil && callee.Parent() == validate && len(core.CallsTo(callee, "tree.Entry.Validate")) > 0 {
+				if callee != nil && callee.Blocks != nil && (callee.Parent() == validate || (callee.Pkg == validate.Pkg && callee != validate)) && alwaysCalls(callee, 1, "tree.Entry.Validate") {
+					// a closure of Validate or a helper of the package that validates the entry it is given on every path
 					recs = append(recs, c)
+					helpers[callee] = true
 				}
 				if core.CalleeIs(c, "tree.Entry.Validate") {
 					recs = append(recs, c)
@@ -186,10 +192,15 @@ func c04(w *core.World, r *core.Report) {
 				r.Check(!bad, "ALL-CHILDREN", core.Site(validate, "recursion unconditional"), w.InstrPos(c), "whether a child is validated must not depend on properties of the child (only on the concurrency switch)")
 			}
 		}
-		// closure validates its parameter
-		for _, a := range validate.AnonFuncs {
-			for _, c := range core.CallsTo(a, "tree.Entry.Validate") {
-				okp := len(a.Params) == 1 && core.CallRecv(c) == ssa.Value(a.Params[0])
+		// closure / helper validates the entry it is given
+		for a := range helpers {
+			for _, c := range core.OwnCallsTo(a, "tree.Entry.Validate") {
+				okp := false
+				for _, p := range a.Params {
+					if core.CallRecv(c) == ssa.Value(p) {
+						okp = true
+					}
+				}
 				r.Check(okp, "ALL-CHILDREN", core.Site(a, "validates the child it was given"), w.InstrPos(c), "loop variable capture: the child passed in must be the one validated")
 			}
 		}
